@@ -203,7 +203,8 @@ theorem countWindow_cnt_parallel (h : V → Nat) (n s : Nat) (d : D) (hc : Coloc
 /-- **replay_seq / iterate_seq**: for EVERY loop specification (bodies are linear chains of `map`,
     `filter`, `flat_map`, `shuffle`, state-reading `map`, `group_by_sum + drop_key`, `group_by_fold`,
     `group_by + count windows (cnt)`, `reduce`, inner hash join with / merge of the loop's side input,
-    and nested `replay` / `iterate`, to any depth), every replica count `n ≥ 1`, every schedule, every
+    and nested `replay` / `iterate` — the latter continuing the enclosing body with its state stream,
+    its items stream (the elements of the last inner round, per outer round) or both —, to any depth), every replica count `n ≥ 1`, every schedule, every
     distribution `x` (at least one replica) of the input `y` and `sp` of the side input `ss` (the same
     multiset every round: the cached side of binary.rs): the parallel loop protocol — each round the
     body runs on the distributed stream, every replica of the last body block folds its share with
@@ -232,7 +233,7 @@ Node kinds COVERED by the composition theorem (a sink is covered iff every stage
   ship hash, inner/left × ship broadcast-right (any local algorithm: the model is the relational
   join); `route`; `replay`, `iterate` with or without a side input (all body stages: stateless,
   `shuffle`, `addst`, `gbsum`, `gbfold`, `gbwin`, `reduce`, `joinside`, `mergeside`, nested `replay` /
-  `iterate`); `sink`.
+  `iterate` / `iteritems` / `iterboth`); `sink`.
 NOT covered (their output is tagged `ok := false`, and so is everything downstream): `kwin` with an
   aggregate other than `cnt` and `zip` (order sensitive), `kjoin` (keyed join: needs equal replica counts of two
   co-located streams, not tracked by the tags), `kfold`/`kreduce` of a keyed stream that is not
